@@ -9992,7 +9992,7 @@ class Format_Item_List(SequenceBase):  # pylint: disable=invalid-name
             if match:
                 # The current item matches with a hollerith string.
                 match_str = match.group(0)
-                hol_length_str = match_str[:-1]
+                hol_length_str = match_str[:-1].replace(" ", "")
                 hol_length = int(hol_length_str)
                 num_chars = len(match_str) + hol_length
                 if len(current_string) < num_chars:
@@ -11407,9 +11407,10 @@ class Use_Stmt(StmtBase):  # pylint: disable=invalid-name
                                 only_list.append(
                                     (child.children[1].string, child.children[2].string)
                                 )
-                        elif isinstance(child, Generic_Spec):
+                        elif isinstance(child, (Generic_Spec, Dtio_Generic_Spec)):
                             # For now we ignore anything other than symbol names
-                            # and this includes operators (TODO #379).
+                            # and this includes operators (TODO #379) and
+                            # defined-I/O generic specifications.
                             pass
                         else:
                             raise InternalError(
